@@ -1,4 +1,5 @@
 import Replicon.Proofs.ConfirmHistory
+import Replicon.Proofs.MutateTicks
 /-
 C12 — Tick-confirmation queries agree with what was actually received.
 
@@ -63,6 +64,65 @@ theorem C12_contains_any (h : ConfirmHistory) (sp : SetSpec) (a b : Nat) (inv : 
     (hab : a ≤ b) (nab : Near a b) (na : Near a sp.last) (nb : Near b sp.last) (hbase : 64 ≤ sp.last) :
     ∃ v, h.containsAny (a % 4294967296) (b % 4294967296) = .ok v ∧ (v = true ↔ sp.containsAny a b) :=
   ch_contains_any h sp a b inv hab nab na nb hbase
+
+/-! ### the global mutate-tick tracker (`ServerMutateTicks`) -/
+
+/-- Run a sequence of `confirm(tick, messages_count)` calls; returns the final ring and the
+list of return values ("tick completely received"). -/
+def runSmt : MutateTicks → List (Nat × Nat) → Res (MutateTicks × List Bool)
+  | s, [] => .ok (s, [])
+  | s, (t, n) :: cs =>
+    (s.confirm (t % 4294967296) n).bind fun r =>
+      (runSmt r.1 cs).bind fun r2 => .ok (r2.1, r.2 :: r2.2)
+
+/-- Premise: ticks within half range of the running last tick, and calls that respect the
+protocol (non-zero, consistent count; no more confirmations than messages for ticks still in
+the window). -/
+def GoodCalls : CountSpec → List (Nat × Nat) → Prop
+  | _, [] => True
+  | sp, (t, n) :: cs => Near t sp.last ∧ CallOk sp t n ∧ GoodCalls (sp.confirm t n) cs
+
+/-- For every sequence of confirmations (any length, gaps beyond the window, across the wrap)
+the tracker never panics and its ring represents exactly the confirmation log: slot `i` holds
+the announced count and the number of confirmations of tick `last - i`. -/
+theorem C12_tracker_refines (s : MutateTicks) (sp : CountSpec) (cs : List (Nat × Nat))
+    (inv : SMTInv s sp) (hg : GoodCalls sp cs) :
+    ∃ s' rs, runSmt s cs = .ok (s', rs) ∧
+      SMTInv s' (cs.foldl (fun sp c => sp.confirm c.1 c.2) sp) := by
+  induction cs generalizing s sp with
+  | nil => exact ⟨s, [], rfl, inv⟩
+  | cons c cs ih =>
+    obtain ⟨t, n⟩ := c
+    obtain ⟨hnear, hok, hrest⟩ := hg
+    obtain ⟨s1, r1, e1, inv1, _⟩ := smt_confirm s sp t n inv hnear hok
+    obtain ⟨s2, rs2, e2, inv2⟩ := ih s1 (sp.confirm t n) inv1 hrest
+    refine ⟨s2, r1 :: rs2, ?_, inv2⟩
+    show (s.confirm (t % 4294967296) n).bind _ = _
+    rw [e1]
+    show (runSmt s1 cs).bind _ = _
+    rw [e2]; rfl
+
+/-- `confirm` reports "fully received" exactly when the tick is still tracked and the number of
+confirmations now equals the announced, non-zero message count. -/
+theorem C12_tracker_confirm_result (s : MutateTicks) (sp : CountSpec) (t n : Nat)
+    (inv : SMTInv s sp) (near : Near t sp.last) (ok : CallOk sp t n) :
+    ∃ s' r, s.confirm (t % 4294967296) n = .ok (s', r) ∧ SMTInv s' (sp.confirm t n) ∧
+      r = (decide (sp.last < t + 64) && (sp.confirm t n).complete t) :=
+  smt_confirm s sp t n inv near ok
+
+theorem C12_tracker_contains (s : MutateTicks) (sp : CountSpec) (q : Nat) (inv : SMTInv s sp)
+    (near : Near q sp.last) : s.contains (q % 4294967296) = sp.contains q :=
+  smt_contains s sp q inv near
+
+theorem C12_tracker_contains_any (s : MutateTicks) (sp : CountSpec) (a b : Nat) (inv : SMTInv s sp)
+    (hab : a ≤ b) (nab : Near a b) (na : Near a sp.last) (nb : Near b sp.last) (hbase : 64 ≤ sp.last) :
+    ∃ v, s.containsAny (a % 4294967296) (b % 4294967296) = .ok v ∧ (v = true ↔ sp.containsAny a b) :=
+  smt_contains_any s sp a b inv hab nab na nb hbase
+
+theorem C12_tracker_init : SMTInv MutateTicks.default CountSpec.init := smt_init
+
+example : GoodCalls CountSpec.init [(5, 2), (5, 2), (70, 1), (6, 3)] := by
+  simp [GoodCalls, Near, CallOk, CountSpec.init, CountSpec.confirm, CountSpec.count, CountSpec.received]
 
 /-! Non-vacuity: a concrete history across the wrap point with a gap longer than the window
 satisfies the premises, and the witnesses of finding F6 (repaired by a `fix:` commit) evaluate
